@@ -294,6 +294,10 @@ func (e *Exec) Run() {
 			e.Stats.Inc("fault.clock.local_time_zone")
 		}
 	}
+	perNodeEnv = e.S.Config.EnvPerNode
+	if perNodeEnv {
+		e.Stats.Inc("fault.env.per_node_process_environment")
+	}
 	runSkipUpgrades = nil
 	for _, h := range e.S.Config.SkipUpgradeHeights {
 		runSkipUpgrades = append(runSkipUpgrades, int(h))
